@@ -322,6 +322,72 @@ def exhaustive_cache_k2(ctx: Ctx):
     return part
 
 
+# ---- (a+) the font-analysis cache of the PDF digit recovery ---------------------------------------------------------------
+def run_fontcache_schedule(choices: list[int]):
+    """two threads extract pages that embed the same font with the same null-mapped glyphs (same cache key) on a cold cache"""
+    from pypdf import PdfReader
+    from vf.gen import cidpdf
+    from sharepoint2text.parsing.extractors.pdf import pdf_extractor as px
+    font, _ = cidpdf.digit_font()
+    raw = cidpdf.cid_pdf(font, [3, 11, 12, 4], {3: "A", 4: "B", 11: None, 12: None})
+    pages = [PdfReader(io.BytesIO(raw)).pages[0] for _ in range(2)]
+    old = px._FONT_CACHE
+    px._FONT_CACHE = _SchedDict()
+    global TARGETS
+    saved_targets, TARGETS = TARGETS, ()          # only the cache is scheduled here; the patch section has its own sub-check
+    try:
+        sched = Sched()
+        out: list = [None, None]
+
+        def body(i):
+            _TL.sched, _TL.tid = sched, i
+            try:
+                sched.point(i, "start")
+                try:
+                    out[i] = px._extract_text_with_spacing(pages[i])[0]
+                except BaseException as e:  # noqa
+                    out[i] = f"raised {type(e).__name__}: {e}"
+            finally:
+                _TL.sched = None
+                sched.done(i)
+        ths = [threading.Thread(target=body, args=(i,), daemon=True) for i in range(2)]
+        for t in ths:
+            t.start()
+        branching, deadlock = sched.drive(choices, 2)
+        for t in ths:
+            t.join(timeout=5)
+    finally:
+        px._FONT_CACHE = old
+        TARGETS = saved_targets
+    return {"out": out, "trace": sched.trace, "branching": branching, "deadlock": deadlock}
+
+
+def exhaustive_fontcache(ctx: Ctx):
+    part = Partial()
+    stack = [[]]
+    n = 0
+    while stack:
+        prefix = stack.pop()
+        r = run_fontcache_schedule(prefix)
+        n += 1
+        tr = "".join(f"{t}{kind[0]}" for t, kind in r["trace"])
+        tids = [t for t, kind in r["trace"] if kind != "start"]
+        blocks = [g for g, _ in itertools.groupby(tids)]
+        part.case(digest(["fontcache", tuple(r["trace"])]), len(blocks) > len(set(blocks)), sample={"sub": "font cache", "trace": tr, "out": r["out"]} if n % 7 == 0 else None, k=2, fontcache=True)
+        bad = [i for i, o in enumerate(r["out"]) if o != "A12B"]
+        if bad or r["deadlock"]:
+            part.violations.append(Violation("result-depends-on-concurrency", "C15:schedule:result-depends-on-concurrency",
+                                             f"font cache, two threads, same embedded font and glyphs, cold cache, choices={prefix}: thread {bad[0] if bad else '?'} extracted {r['out'][bad[0]] if bad else None!r}, alone 'A12B'; trace {tr}",
+                                             {"kind": "fontcache-schedule", "choices": prefix}))
+        for i in range(len(prefix), len(r["branching"])):
+            for alt in range(1, r["branching"][i]):
+                stack.append(prefix + [0] * (i - len(prefix)) + [alt])
+        if n > 3000:
+            raise RuntimeError("font-cache schedule tree unexpectedly large")
+    part.exhaustive["schedules of 2 threads through the PDF font-analysis cache (cold)"] = n
+    return part
+
+
 # ---- (a'') the lazily filled type registry of the serialisation module ---------------------------------------------------
 class _SchedDict(dict):
     def _pt(self, kind):
@@ -719,6 +785,46 @@ def cold_pairs(ctx: Ctx):
     return part
 
 
+def _payload_of(raw, name):
+    from sharepoint2text.parsing.router import get_extractor
+    path = "iso." + ext_of(name)
+    r = list(get_extractor(path)(io.BytesIO(raw), path))[0]
+    return json.dumps(r.to_json())
+
+
+def _restore_after(raw_a, name_a, payload_b: str):
+    """fresh process: extract A and serialise it (the process's first use of the serialisation module), then restore B from its stored JSON"""
+    from sharepoint2text.parsing.extractors.data_types import ExtractionInterface
+    from sharepoint2text.parsing.router import get_extractor
+    if raw_a is not None:
+        path = "iso." + ext_of(name_a)
+        for r in get_extractor(path)(io.BytesIO(raw_a), path):
+            json.dumps(r.to_json())
+    obj = ExtractionInterface.from_json(json.loads(payload_b))
+    same = hasattr(obj, "to_json") and json.dumps(obj.to_json(), sort_keys=True) == json.dumps(json.loads(payload_b), sort_keys=True)
+    return type(obj).__name__, type(getattr(obj, "metadata", None)).__name__, same
+
+
+def cold_restore(ctx: Ctx):
+    """from_json of a stored result must not depend on what the process serialised before (histories over the serialisation module, cold processes)"""
+    part = Partial()
+    pool = build_pool()
+    names = ["plain_text/plain.txt", "html/sample.html", "modern_ms/headings.docx", "gen/cid-a.pdf", "mails/basic_email.eml", "modern_ms/mwe.xlsx", "open_office/headings.odt", "archives/test_archive.zip"]
+    payloads = {n: in_fresh_fork(_payload_of, pool[n], n) for n in names if not n.endswith(".zip")}
+    alone = {n: in_fresh_fork(_restore_after, None, None, payloads[n]) for n in payloads}
+    pairs = [(a, b) for a in names for b in payloads if a != b]
+    for i, (a, b) in enumerate(pairs):
+        if i % ctx.nshards != ctx.shard:
+            continue
+        got = in_fresh_fork(_restore_after, pool[a], a, payloads[b])
+        part.case(digest(["restore", a, b]), True, sample={"first": a, "then_restore": b, "restored_as": got[0]} if i % 13 == 0 else None, kind="cold-restore")
+        if got != alone[b] or not got[2]:
+            part.violations.append(Violation("result-depends-on-history", "C15:history:result-depends-on-history",
+                                             f"fresh process: after extracting and serialising {a}, from_json of the stored result of {b} gives {got}; alone it gives {alone[b]}", {"kind": "cold-restore", "first": a, "then": b}))
+    part.exhaustive["ordered pairs (serialise A, then restore stored B) in a cold process"] = len(pairs)
+    return part
+
+
 # ---------------------------------------------------------------------------------------------------------------
 # (b) preemptive stress
 # ---------------------------------------------------------------------------------------------------------------
@@ -790,8 +896,10 @@ def run(ctx: Ctx) -> Partial:
     part.merge(shard_map(ctx, "vf.props.c15", "exhaustive_k2", 1))
     part.merge(shard_map(ctx, "vf.props.c15", "exhaustive_cache_k2", 1))
     part.merge(shard_map(ctx, "vf.props.c15", "registry_schedules", 1))
+    part.merge(shard_map(ctx, "vf.props.c15", "exhaustive_fontcache", 1))
     part.merge(shard_map(ctx, "vf.props.c15", "sampled_k", 6))
     part.merge(shard_map(ctx, "vf.props.c15", "cold_pairs", 16))
+    part.merge(shard_map(ctx, "vf.props.c15", "cold_restore", 8))
     part.merge(shard_map(ctx, "vf.props.c15", "histories_shard", 8))
     part.merge(shard_map(ctx, "vf.props.c15", "stress_shard", 4))
     return part
@@ -802,6 +910,15 @@ def replay(ctx: Ctx, payload: dict):
     if k == "schedule":
         fails, _, _ = judge_schedule(payload["k"], payload["choices"])
         return _viol_sched(payload["k"], payload["choices"], fails)
+    if k == "cold-restore":
+        pool = build_pool()
+        pb = in_fresh_fork(_payload_of, pool[payload["then"]], payload["then"])
+        got, alone = in_fresh_fork(_restore_after, pool[payload["first"]], payload["first"], pb), in_fresh_fork(_restore_after, None, None, pb)
+        return [Violation("result-depends-on-history", "C15:history:result-depends-on-history", f"after {payload['first']}: from_json({payload['then']}) -> {got}, alone {alone}", payload)] if got != alone or not got[2] else []
+    if k == "fontcache-schedule":
+        r = run_fontcache_schedule(payload["choices"])
+        bad = [o for o in r["out"] if o != "A12B"]
+        return [Violation("result-depends-on-concurrency", "C15:schedule:result-depends-on-concurrency", f"font cache schedule {payload['choices']}: {r['out']}", payload)] if bad or r["deadlock"] else []
     if k == "registry-schedule":
         _registry_payloads()
         out, deadlock, _ = run_registry_schedule(payload["first"], payload["steps"])
